@@ -179,3 +179,17 @@ Proof.
       {| u_isuid := true; u_content := [1]; u_sigs := [ps (mk 1 19 1 None true 1)] |} ].
   repeat split; vm_compute; auto.
 Qed.
+
+(* ------------------------------------------------------------------ a blob that repeats a key (repair 84a9ce0) *)
+(* A, B, A again followed by a user id and a subkey: both attach to the key they follow (the dictionary entry of A, which keeps
+   its first position); before the repair they were attached to B, the last dictionary entry *)
+Definition blob_aba : list packet :=
+  [PKey true true true 1; PUid true [1]; PKey true true true 2; PUid true [2]; PKey true true true 1; PUid true [3]; PKey false true true 4].
+Theorem C14_repeated_key_components_follow_their_key :
+  exists a b, import blob_aba = Ok [a; b] /\ p_label a = 1 /\ p_label b = 2
+    /\ map u_content (p_uids a) = [[3]] /\ map sk_label (p_subs a) = [4] /\ map u_content (p_uids b) = [[2]] /\ p_subs b = [].
+Proof. eexists. eexists. split; [vm_compute; reflexivity|]. repeat split. Qed.
+Theorem C14_repeated_key_prefix_refuted :
+  exists a b, import_prefix_dup blob_aba = Ok [a; b] /\ p_label a = 1 /\ p_label b = 2
+    /\ p_uids a = [] /\ map u_content (p_uids b) = [[2]; [3]] /\ map sk_label (p_subs b) = [4].
+Proof. eexists. eexists. split; [vm_compute; reflexivity|]. repeat split. Qed.
